@@ -14,6 +14,8 @@ import (
 	"log"
 	"math/big"
 	"net"
+	"runtime"
+	"strings"
 	"sync"
 	"time"
 
@@ -399,7 +401,7 @@ func (c *Conn) Step(b []byte) ([]byte, bool, error) {
 	}
 	if !c.WaitIdle() {
 		o, eof := c.Output()
-		return o, eof, fmt.Errorf("server did not become idle within %v after %q", IdleTimeout, trunc(b))
+		return o, eof, fmt.Errorf("server did not become idle within %v after %q (backend: %s)\n%s", IdleTimeout, trunc(b), c.beState(), GoroutineDump("go-smtp"))
 	}
 	o, eof := c.Output()
 	return o, eof, nil
@@ -419,6 +421,28 @@ func (c *Conn) Replies(b []byte) ([]wire.Reply, bool, error) {
 		return rs, eof, fmt.Errorf("reply syntax: incomplete reply %q", rest)
 	}
 	return rs, eof, nil
+}
+
+func (c *Conn) beState() string {
+	if c.Srv.BE == nil {
+		return "-"
+	}
+	return c.Srv.BE.DebugState()
+}
+
+// GoroutineDump returns the stacks of all goroutines whose stack mentions
+// substr.
+func GoroutineDump(substr string) string {
+	buf := make([]byte, 8<<20)
+	n := runtime.Stack(buf, true)
+	var sb strings.Builder
+	for _, g := range strings.Split(string(buf[:n]), "\n\n") {
+		if strings.Contains(g, substr) {
+			sb.WriteString(g)
+			sb.WriteString("\n\n")
+		}
+	}
+	return sb.String()
 }
 
 func trunc(b []byte) string {
